@@ -153,13 +153,13 @@ func Judge(ctx *core.Ctx, cases []*MsgCase, obs *Observations) {
 				// several outcomes in one kind of context: not a function of the
 				// message at all; otherwise a function of message + surroundings
 				how := "-depend-on-surrounding-code,"
-				for _, kind := range []string{"iso", "emb0", "emb1", "emb2", "emb3"} {
-					k := 0
-					for _, s := range seen {
-						if s.In[kind] > 0 {
-							k++
-						}
+				kinds := map[string]int{}
+				for _, s := range seen {
+					for kind := range s.In {
+						kinds[kind]++
 					}
+				}
+				for _, k := range kinds {
 					if k > 1 {
 						how = "-vary-across-compiles,"
 					}
